@@ -66,6 +66,14 @@ def cases(tier, seed):
                         for nonherm in ((False, True) if basis == "orth" else (True,)):
                             out.append(dict(solver="direct", n=n, blocks=list(blocks), deg=deg, basis=basis, dtypes=dt,
                                             nonhermitian=nonherm, seed=seed))
+    # a degenerate explicit pair whose eigenvectors are localised on disjoint site sets of different size
+    for n in ns:
+        for blocks in ((2,), (2, 1), (3,), (4,)):
+            for deg in ("pair", "triple") if blocks[0] >= 3 else ("pair",):
+                for dt in ("rr", "rc", "cc"):
+                    for nonherm in (False, True):
+                        out.append(dict(solver="direct", n=n, blocks=list(blocks), deg=deg, basis="orth", dtypes=dt,
+                                        nonhermitian=nonherm, layout="localized", seed=seed))
     # non-normal structure: (a) H_0 Hermitian on the explicit levels but non-normal on the implicit complement,
     # explicit levels given as plain bases; (b) real non-symmetric H_0 whose explicit levels are a complex-conjugate pair
     for kindp in ("nonnormal-complement", "real-nonsymmetric"):
@@ -81,6 +89,8 @@ def cases(tier, seed):
                 for dt in ("float64", "complex128", "float32", "complex64"):
                     for vec in ("real", "complex", "matrix"):
                         out.append(dict(solver="greens", n=n, rank=rank, basis=basis, dtype=dt, vec=vec, seed=seed))
+                        if rank == 2 and basis == "orth":
+                            out.append(dict(solver="greens", n=6, rank=rank, basis=basis, dtype=dt, vec=vec, seed=seed, layout="localized"))
     # --- KPM
     kpm = [dict(n=6, blocks=[1], opts={}), dict(n=6, blocks=[2], opts={"atol": 1e-4}),
            dict(n=6, blocks=[1, 1], opts={}), dict(n=6, blocks=[1, 1], opts={"atol": 1e-4}),
@@ -195,7 +205,7 @@ def run_diagonal(case):
     return V, bool((np.abs(Y[~coincide]) > 0).any()), "solved"
 
 
-def make_problem(n, blocks, deg, basis, dtypes, seed):
+def make_problem(n, blocks, deg, basis, dtypes, seed, layout=None):
     """Random-looking but deterministic H_0 with known eigendecomposition."""
     rng = np.random.default_rng([seed, n, len(blocks), 21])
     nexp = sum(blocks)
@@ -222,6 +232,13 @@ def make_problem(n, blocks, deg, basis, dtypes, seed):
     A = rng.normal(size=(n, n))
     if cplx_h:
         A = A + 1j * rng.normal(size=(n, n))
+    if layout == "localized":
+        # the first two (degenerate) eigenvectors live on disjoint sites with unequal spread: one on two sites,
+        # the other on the remaining n - 2 sites, so the rows of largest weight of the pair are linearly dependent
+        A[:, 0] = 0
+        A[:2, 0] = 1
+        A[:, 1] = 0
+        A[2:, 1] = 1 if not cplx_h else np.exp(1j * np.arange(n - 2))
     if basis == "orth":
         Q, _ = np.linalg.qr(A)
         Rm, Lm = Q, Q
@@ -278,7 +295,7 @@ def run_direct(case):
         else:
             eigvecs = [(Rm[:, off[b] : off[b + 1]], Lm[:, off[b] : off[b + 1]]) for b in range(len(blocks))]
     else:
-        h0, E, Rm, Lm = make_problem(n, blocks, case["deg"], case["basis"], case["dtypes"], case["seed"])
+        h0, E, Rm, Lm = make_problem(n, blocks, case["deg"], case["basis"], case["dtypes"], case["seed"], case.get("layout"))
     if case["basis"] == "special":
         pass
     elif case["basis"] == "orth":
@@ -361,6 +378,11 @@ def run_greens(case):
     A = rng.normal(size=(n, n))
     if cplx:
         A = A + 1j * rng.normal(size=(n, n))
+    if case.get("layout") == "localized":  # kernel vectors on disjoint site sets of different size
+        A[:, 0] = 0
+        A[:2, 0] = 1
+        A[:, 1] = 0
+        A[2:, 1] = 1
     if case["basis"] == "orth":
         Q, _ = np.linalg.qr(A)
         Rm, Lm = Q, Q
